@@ -169,6 +169,13 @@ def _token_consts(o):
     return out
 
 
+def _full(rx, text):
+    try:
+        return re.fullmatch(rx, text) is not None
+    except re.error:
+        return False
+
+
 def _ops(rv):
     out = []
     for k in ("a", "b"):
@@ -467,6 +474,13 @@ def run(ctx, rep):
             prefixes = sorted(set(str_consts(an[0])))
             bad = [p for p in prefixes if not re.fullmatch(sym, p + "1")]
             kwc = [p for p in prefixes if (p + "1") in tok_by_str]
+            # the Symbol rule has the lowest priority: a generated name that another token rule matches in full (e.g. the jet
+            # rule `jet_[a-z0-9_]+`) is lexed as that token, not as a name
+            for p_ in prefixes:
+                for idx in ("1", "23", "456"):
+                    other = [v for v, rx in regexes.items() if v != "Symbol" and _full(rx, p_ + idx)]
+                    if other and p_ not in kwc:
+                        kwc.append(p_)
             if bad or kwc or not prefixes:
                 rep.violation("C17.names", "prefixes", "generated name prefixes %s do not lex as one Symbol" % (bad + kwc), an[0].where())
             else:
@@ -487,6 +501,19 @@ def run(ctx, rep):
                 rep.ok("C17.names", "hole names", shown)
             else:
                 rep.violation("C17.names", "hole", "hole names such as %s do not lex as one Symbol: `?%s` cannot be parsed back" % (shown, shown[0] if shown else ""), cdc[0].where())
+        # one name, one node: the parser turns the resolved expressions into nodes while iterating them by identity
+        # (InternalSharing); with NoSharing an expression referred to twice becomes two nodes carrying the same name and
+        # the renderer prints the name twice
+        if conv:
+            its = [cs for c in conv for cs in c.calls() if cs.name == "post_order_iter"]
+            shar = sorted({a.rsplit("::", 1)[-1] for cs in its for a in cs.f.get("args", []) if "Sharing" in a})
+            if not its:
+                rep.anchor("C17.names", "post_order_iter in parse")
+            elif any(x.startswith("NoSharing") for x in shar) or not shar:
+                rep.violation("C17.names", "parse-sharing", "the parser converts resolved expressions iterating with %s: a named expression referred to more than once "
+                              "becomes several nodes with one name, which the renderer prints as repeated definitions" % (shar or "?"), its[0].where())
+            else:
+                rep.ok("C17.names", "parser converts each named expression once", shar)
         # generated names are tested against the program's own names
         if conv:
             gen = [cs for c in conv for cs in c.calls() if cs.name == "assign_name"]
